@@ -129,7 +129,7 @@ def gen_case(rng, tier):
             e = rng.choice(ENV_EXPRS + ENV_ALL)
             ops.append({'op': 'env-token', 'expr': e, 'name': '$sentinel', 'slot': rng.randrange(3),
                         'allow': rng.random() < 0.5, 'via': rng.choice(['token', 'selector'])})
-        elif x < 0.72:
+        elif x < 0.77:
             # the file that exposes the environment block of the process, read as text
             ops.append({'op': 'proc-environ', 'href': rng.choice(['file:///proc/self/environ', 'file:///proc/self/environ',
                                                                    'file:///proc/thread-self/environ', 'file:///proc/1/environ',
@@ -139,7 +139,9 @@ def gen_case(rng, tier):
                                                                    'file:///proc/thread-self/root/proc/1/environ',
                                                                    # spellings that urlopen unwraps or unquotes
                                                                    'URL:file:///proc/self/environ', '<file:///proc/self/environ>',
-                                                                   '<URL:file:///proc/1/environ>', 'file:///proc/self/%65nviron']),
+                                                                   '<URL:file:///proc/1/environ>', 'file:///proc/self/%65nviron',
+                                                                   'file:///%70roc/self/environ', 'file:///proc/%73elf/%65%6Eviron',
+                                                                   'URL:file:///proc/thread-self/%65nviron']),
                         'enc': rng.choice(['utf-16-le', 'utf-16-be', 'utf-16-le', 'utf-16', 'utf-8', 'latin1', 'utf-32-le']),
                         'fn': rng.choice(['unparsed-text', 'unparsed-text', 'unparsed-text-lines', 'unparsed-text-available']),
                         'allow': rng.random() < 0.2})
